@@ -2,10 +2,12 @@
 package props
 
 import (
+	"fmt"
 	"hash/crc32"
 	"math"
 	"strings"
 	"sync"
+	"sync/atomic"
 
 	"verifmon/core"
 	"verifmon/ref"
@@ -384,4 +386,43 @@ func packedAliasID(r *core.Rng) (a, b ref.ID, ok bool) {
 		return a, b, true
 	}
 	return a, b, false
+}
+
+// hammer is the concurrent scenario of the single-call monitors: G goroutines, released together, each perform n
+// judged calls (step draws the arguments from the goroutine's own PRNG, calls the library and judges the result on
+// the goroutine's scratch case against the sequential reference model). A result that is wrong only when other calls
+// are in flight (lock-free caches, shared scratch buffers) is reported with class prefix "concurrent:".
+func hammer(c *core.Case, G, n int, step func(r *core.Rng, sc *core.Case)) bool {
+	seed := int64(c.R.U64() >> 1)
+	scs := make([]*core.Case, G)
+	var wg sync.WaitGroup
+	barrier := make(chan struct{})
+	var stop atomic.Bool
+	for g := 0; g < G; g++ {
+		scs[g] = core.Scratch(core.NewRng(seed, "hammer", int64(g)))
+		wg.Add(1)
+		go func(sc *core.Case) {
+			defer wg.Done()
+			defer func() {
+				if p := recover(); p != nil {
+					sc.Fail("panic", nil, "panic: %v", p)
+					stop.Store(true)
+				}
+			}()
+			<-barrier
+			for i := 0; i < n && !stop.Load(); i++ {
+				step(sc.R, sc)
+				if sc.Failed() {
+					stop.Store(true)
+				}
+			}
+		}(scs[g])
+	}
+	close(barrier)
+	wg.Wait()
+	c.Tag("concurrent-hammer")
+	for g, sc := range scs {
+		c.Adopt(sc, "concurrent:", fmt.Sprintf("goroutine %d of %d calling concurrently", g, G))
+	}
+	return !c.Failed()
 }
